@@ -11,6 +11,10 @@ namespace Note
 /-- Notified (flag or zero expiry) and allocated. -/
 def NA (s : State) (n : NoteId) : Prop := s.Notified n ∧ (s.notes n).allocated = true
 
+/-- The minimum with a zero deadline is zero. -/
+theorem Dl.min_zero_left (b : Dl) : Dl.min (some 0) b = some 0 := by
+  cases b <;> simp [Dl.min, Dl.lt]
+
 /-- `NOTIFIED_TIME` of a notified note is zero. -/
 theorem ntime_of_notified {s : State} {n : NoteId} (h : s.Notified n) :
     ¬ (s.notes n).ntime.pos := by
@@ -80,9 +84,7 @@ def NClaim (s : State) (t : Tid) : PC → Prop
     (s.notes n).allocated = true ∧ NKN s t n nk ∧ (pos.done = true → s.Notified n)
   | .chd pos stk top =>
     (s.notes top.n).allocated = true ∧ NKN s t top.n top.k ∧ StkN s pos stk top.n
-  | .newP pos n _ dl =>
-    (s.notes n).allocated = true ∧
-    (pos.early = true → (s.notes n).expiry ≠ some 0 ∧ (s.notes n).expiry = dl)
+  | .newP pos n p _ => (s.notes n).allocated = true ∧ (pos = .st → NA s p)
   | .retIs n b => (b = true → NA s n) ∧ (s.after t = true → b = true)
   | .retNotify n => NA s n
   | .wt0 p n _ =>
@@ -121,7 +123,7 @@ theorem NClaim.same {s s' : State} {t : Tid} (h : SameN s s' t) (pc : PC) :
   | chd pos stk top =>
     cases stk <;> cases hk : top.k <;>
       simp only [NClaim, StkN, NKN, DKN, hk, h.alloc, h.notified, h.expiry, h.after, h.na]
-  | newP pos n p dl => simp only [NClaim, h.alloc, h.expiry]
+  | newP pos n p dl => simp only [NClaim, h.alloc, h.na]
   | retIs n b => simp only [NClaim, h.na, h.after]
   | retNotify n => simp only [NClaim, h.na]
   | wt0 p n wdl => cases p <;> simp only [NClaim, h.alloc, h.notified, h.after]
@@ -178,8 +180,7 @@ theorem NClaim.mono {s s' : State} {t : Tid} (h : LeN s s' t) {pc : PC} (hc : NC
         obtain ⟨h4, h5, h6, h7, h8⟩ := h3
         exact ⟨h4, fun g hg => h.na (h5 g hg), by rw [h.alloc]; exact h6,
           fun hp => h.notified (h7 hp), fun c hc' => by rw [h.alloc]; exact h8 c hc'⟩
-  | newP pos n p dl =>
-    exact ⟨by rw [h.alloc]; exact hc.1, fun he => by rw [h.expiry]; exact hc.2 he⟩
+  | newP pos n p dl => exact ⟨by rw [h.alloc]; exact hc.1, fun hp => h.na (hc.2 hp)⟩
   | retIs n b => exact ⟨fun hb => h.na (hc.1 hb), fun ha => hc.2 (h.after ▸ ha)⟩
   | retNotify n => exact h.na hc
   | wt0 p n wdl =>
@@ -220,7 +221,7 @@ theorem NClaim.afterDeadlinePc {s : State} {t : Tid} {n : NoteId} {nt : Dl} {dk 
     · next hp =>
       cases par with
       | none => trivial
-      | some p => exact ⟨h1, fun _ => ⟨h5 hp rfl, h2.2 _ _ rfl⟩⟩
+      | some p => exact ⟨h1, fun hp => by cases hp⟩
     · trivial
   | ready1 wdl =>
     simp only [Note.afterDeadlinePc]
@@ -235,6 +236,40 @@ theorem NClaim.afterDeadlinePc {s : State} {t : Tid} {n : NoteId} {nt : Dl} {dk 
     · exact ⟨h1, fun ha => (h2.1 ha rfl).1, trivial⟩
     · exact ⟨h1, ⟨fun ha _ => h2.1 ha rfl, fun _ _ e => by cases e⟩, by simp⟩
   | dequeue r wdl => exact ⟨h1, fun ha => (h2.1 ha rfl).1, trivial⟩
+
+/-- The same claim in the state after `afterDeadline` (which settles the expiry time of a note
+    being created under a parent). -/
+theorem NClaim.afterDeadline {s : State} {t : Tid} {n : NoteId} {nt : Dl} {dk : DK}
+    (h1 : (s.notes n).allocated = true) (h2 : DKN s t n dk) (h4 : ¬ nt.pos → s.Notified n)
+    (h5 : nt.pos → dk.isNew = true → (s.notes n).expiry ≠ some 0)
+    (h6 : s.after t = true → dk.isObs = true → ¬ nt.pos) :
+    NClaim (Note.afterDeadline s t n nt dk) t (Note.afterDeadlinePc n nt dk) := by
+  by_cases hk : ∃ p dl, dk = .newSelf (some p) dl
+  · obtain ⟨p, dl, rfl⟩ := hk
+    simp only [Note.afterDeadlinePc]
+    split
+    · exact ⟨by simpa using h1, fun hp => by cases hp⟩
+    · trivial
+  · have hn : (Note.afterDeadline s t n nt dk).notes = s.notes :=
+      afterDeadline_notes_of s t n nt (fun p dl e => hk ⟨p, dl, e⟩)
+    refine (NClaim.same (s := s) ⟨fun _ => by rw [hn], fun _ => by rw [hn], fun _ => by rw [hn],
+      by simp⟩ _).mpr ?_
+    exact NClaim.afterDeadlinePc h1 h2 h4 h5 h6
+
+theorem NClaim.afterDeadline_zero {s : State} {t : Tid} {n : NoteId} {dk : DK}
+    (h1 : (s.notes n).allocated = true) (h2 : DKN s t n dk) (h3 : s.Notified n) :
+    NClaim (Note.afterDeadline s t n (some 0) dk) t (Note.afterDeadlinePc n (some 0) dk) :=
+  NClaim.afterDeadline h1 h2 (fun _ => h3) (fun hp => absurd rfl hp) (fun _ _ hp => absurd rfl hp)
+
+/-- The claim at the return of `notify`, in the state after `afterNotify`. -/
+theorem NClaim.afterNotify {s : State} {t : Tid} {n : NoteId} {nk : NK}
+    (h1 : (s.notes n).allocated = true) (h2 : NKN s t n nk) (h3 : s.Notified n) :
+    NClaim (Note.afterNotify s t n nk) t (Note.afterNotifyPc n nk) := by
+  cases nk with
+  | ofApi =>
+    refine (NClaim.same (s := s) ⟨fun _ => ?_, fun _ => ?_, fun _ => ?_, ?_⟩ _).mpr ⟨h3, h1⟩ <;>
+      simp [Note.afterNotify]
+  | ofDeadline dk => exact NClaim.afterDeadline_zero h1 h2 h3
 
 /-- … when the first load saw the flag set. -/
 theorem NClaim.afterDeadlinePc_zero {s : State} {t : Tid} {n : NoteId} {dk : DK}
@@ -376,20 +411,24 @@ theorem NA.step {s s' : State} {e : Event} (hA : InvA s) (hN : InvN s) (hs : ste
   refine ⟨?_, hst.alloc n h.2⟩
   rcases h.1 with hf | he
   · left; exact hst.flag n h.2 hf
-  · rcases step_expiry hs n h.2 with h1 | ⟨a, p, dl, _, hpc, _, _⟩
+  · rcases step_expiry hs n h.2 with h1 | ⟨a, p, dl, _, _, hpc, hexp⟩
     · right; rw [h1]; exact he
-    · have hc := hN.claim a
-      rw [hpc] at hc
-      exact absurd he (hc.2 rfl).1
+    · right
+      have hc := hN.claim a
+      have hdl : (s.notes n).expiry = dl := by
+        rcases hpc with ⟨pos, nt, hpc⟩ | ⟨pos, par, hpc⟩
+        · rw [hpc] at hc; exact hc.2.1.2 _ _ rfl
+        · rw [hpc] at hc; exact hc.2.1.2 _ _ rfl
+      rw [hexp, ← hdl, he]
+      exact Dl.min_zero_left _
 
 /-- The expiry time of the note a thread is creating is not changed by other threads. -/
 theorem expiry_other {s s' : State} {e : Event} (hA : InvA s) (hs : step s e = .ok s')
     {t : Tid} {n : NoteId} (hc : (s.pc t).creating = some n) (ht : e.actor ≠ some t) :
     (s'.notes n).expiry = (s.notes n).expiry := by
-  rcases step_expiry hs n (hA.creating t n hc).1 with h1 | ⟨a, p, dl, ha, hpc, _, _⟩
+  rcases step_expiry hs n (hA.creating t n hc).1 with h1 | ⟨a, p, dl, ha, hcr, _, _⟩
   · exact h1
-  · have : (s.pc a).creating = some n := by rw [hpc]; simp
-    have := hA.unique t a n hc this
+  · have := hA.unique t a n hc hcr
     subst this
     exact absurd ha ht
 
@@ -448,10 +487,7 @@ theorem NClaim.other {s s' : State} {e : Event} (hA : InvA s) (hN : InvN s)
           fun c hc' => hst.alloc _ (h8 c hc')⟩
   | newP pos n p dl =>
     rw [hpc] at hc
-    obtain ⟨h1, h2⟩ := hc
-    refine ⟨hst.alloc n h1, fun he => ?_⟩
-    have hcr : (s.pc t).creating = some n := by rw [hpc]; simp
-    rw [expiry_other hA hs hcr ht]; exact h2 he
+    exact ⟨hst.alloc n hc.1, fun hp => hna p (hc.2 hp)⟩
   | retIs n b =>
     rw [hpc] at hc
     exact ⟨fun hb => hna n (hc.1 hb), fun ha => hc.2 (haf ▸ ha)⟩
